@@ -213,7 +213,7 @@ def d4(ctx, F):
     for c in hs.calls():
         n = strip_generics(c.callee)
         if n in ("tokio::sync::mutex::Mutex::lock", "std::collections::hash::map::HashMap::contains_key", "std::collections::hash::map::HashMap::insert",
-                 "std::collections::hash::map::HashMap::get_mut", "selium_server::topic::Sender::send", "tokio::task::spawn::spawn",
+                 "std::collections::hash::map::HashMap::get_mut", "std::collections::hash::map::HashMap::get", "selium_server::topic::Sender::send", "tokio::task::spawn::spawn",
                  "selium_server::topic::pubsub::Topic::pair", "selium_server::topic::reqrep::Topic::pair"):
             guarded.append(c)
     ctx.floor("C07.D4.server-validates.guarded-ops", len(guarded), 12)
@@ -252,7 +252,7 @@ def d5(ctx, F):
     gt = hs.calls_to("selium_protocol::frame::Frame::get_topic")
     tvals = flow.derived(hs, {gt[0].dest["l"]}, calls="adapters") if gt else set()
     ops = [c for c in hs.calls() if strip_generics(c.callee) in ("std::collections::hash::map::HashMap::contains_key", "std::collections::hash::map::HashMap::insert",
-                                                               "std::collections::hash::map::HashMap::get_mut") and "TopicName" in c.full]
+                                                               "std::collections::hash::map::HashMap::get_mut", "std::collections::hash::map::HashMap::get") and "TopicName" in c.full]
     ctx.floor("C07.D5.map-key.ops", len(ops), 4)
     for c in ops:
         ctx.check(op_local(c.args[1]) in tvals, "C07.D5.map-key", "handle_stream:map-key:%s" % c.name(),
